@@ -7,5 +7,5 @@ git apply --check "$patch" || { echo "patch does not apply"; exit 2; }
 git apply "$patch"
 trap 'cd /repo && git apply -R "$patch"' EXIT
 for p in "$@"; do
-  (cd /verif && timeout 900 ./check "$p" quick 2>&1 | grep -E "VIOLATION|FAILED|BROKEN|quick:" | cut -c1-260)
+  (cd /verif && VERIF_EVIDENCE_DIR=/verif/.work/seed-evidence timeout 900 ./check "$p" quick 2>&1 | grep -E "VIOLATION|FAILED|BROKEN|quick:" | cut -c1-260)
 done
